@@ -26,9 +26,20 @@ C02-well-formed image whose section-name string table starts with NUL (`NameTabl
 specification vocabulary — the gABI's "index zero holds a null character") every section of every
 successfully loaded prefix has the empty name or the name the complete file gives it.  Non-vacuity:
 `img272` (section header table last; prefix 250 has a zeroed section next to the resident name table).
-Partial (what is NOT a theorem, covered by correspondence + oracle only): the table read-outs of the
-accessor classes (symbols, notes, dynamic, ...: functions of the section data and header fields proved
-equal-or-absent here; their models belong to the accessor families).
+Table read-outs on a prefix (Props/ComposeTables.lean §3, composing `prefix_sound_section` with C02∘C08/C09):
+`ComposeTables.prefixLoaded_of_load`: a prefix of a C02-well-formed image that loads is in the state
+`PrefixLoaded img k` (every section: the zeroed header without data, or the specification's ten fields of the
+complete image, data-less if its type occupies no file space; loader invariants for the prefix stream);
+`prefix_secResident`: `sections[i]->get_data()` on it keeps that state and hands out a section with NO data or with
+exactly the bytes the complete file assigns to section i; `prefix_strings_sound`: every string lookup (any section,
+any 32-bit index) is null or `Spec.strAt (secFileBytes img i) k` — what the complete file's load reports
+(`strings_reports_spec`); `prefix_symbols_sound`: for a symbol table with the class's entry size every
+get_symbol(k) is refused with the out-parameters untouched, or has the complete file's return value and attributes
+and the complete file's name or the empty name (linked string table not in the prefix).
+Partial (what is NOT a theorem, covered by correspondence + oracle only): the read-outs of the other accessor
+classes on a prefix (relocations, dynamic, notes, arrays, versym: `prefix_secResident` gives the section they
+would read — data absent or the complete file's bytes — the per-accessor "no data => refused/empty" step is not
+written out for them; the dynamic accessor fabricates one DT_NULL entry on a data-less section).
 Correspondence + oracle: every prefix (quick: a stratified sample plus all lengths around table
 and data boundaries; thorough: every length) of encoder-built images and small examples, eager and
 lazy; the oracle compares the prefix's observation with the complete file's observation, field by
@@ -51,9 +62,11 @@ THEOREMS = ["ElfioVerif.C17.read_prefix", "ElfioVerif.C17.isolatedRead_prefix",
             "ElfioVerif.C17.prefix_sound_core",
             "ElfioVerif.C17.prefix_sound_zero_name",
             "ElfioVerif.Compose.nameTableNulFirst_of_image",
-            "ElfioVerif.Compose.prefix_sound_names"]
-EXTRA_IMPORTS = ["ElfioVerif.Props.Compose"]
-SITES = ["conv", "load_s", "sec32_load", "sec64_load", "seg32_load", "seg64_load"]
+            "ElfioVerif.Compose.prefix_sound_names",
+            "ElfioVerif.ComposeTables.prefixLoaded_of_load", "ElfioVerif.ComposeTables.prefix_secResident",
+            "ElfioVerif.ComposeTables.prefix_strings_sound", "ElfioVerif.ComposeTables.prefix_symbols_sound"]
+EXTRA_IMPORTS = ["ElfioVerif.Props.Compose", "ElfioVerif.Props.ComposeTables"]
+SITES = ["conv", "load_s", "sec32_load", "sec64_load", "seg32_load", "seg64_load", "seg32_range", "seg64_range"]
 RULE = ("(image, k): object 0 loads the complete well-formed image, object 1 its prefix of length k, both "
         "observed identically; images from tools/elfspec.py in 4 configurations and small bundled examples; "
         "quick: k in a boundary-biased sample (every table/record/data boundary +-1, plus random), thorough: "
